@@ -41,20 +41,15 @@ mutual
     | t :: rest => t.refs ++ termsRefs rest
 end
 
-/-- `s[0] >= 'A' && s[0] <= 'Z'` -/
-def startsUpper (s : String) : Bool :=
-  match s.toList with
-  | c :: _ => 'A' ≤ c && c ≤ 'Z'
-  | [] => false
-
 /-- `consistent`: `defs` = token ids (not ignored tokens, not regular definitions) and production heads -/
 def synDefs (g : Grammar) : List String :=
   ((g.lex.filter fun p => p.kind == .tok).map (·.id)) ++ g.syn.map (·.head)
 
-/-- is the use of symbol `s` in a body an error (not merely a warning)? -/
+/-- is the use of symbol `s` in a body an error (not merely a warning)?  `consistent` re-derives "is a
+    production name" from the spelling with the scanner's own predicate (`unicode.IsUpper` of the first
+    rune, fix D14; before it used the ASCII range); that is exactly how `s.kind` was assigned -/
 def undefinedUse (g : Grammar) (s : SSym) : Bool :=
-  s.kind != .strLit && !(synDefs g).contains s.name && s.name != "empty" && s.name != "error" &&
-    startsUpper s.name
+  s.kind == .prodId && !(synDefs g).contains s.name && s.name != "empty" && s.name != "error"
 
 def regDefIds (g : Grammar) : List String := (g.lex.filter fun p => p.kind == .reg).map (·.id)
 
